@@ -39,6 +39,11 @@ def run(ctx):
     vplib.gen_consts(ctx)
     proofs_ok, detail = vplib.check_proofs(ctx)
     ctx.log("proofs:", proofs_ok, detail[:200])
+    if proofs_ok and not ctx.quick:
+        ok, log = vplib.coqchk(ctx)
+        ctx.log("coqchk:", ok)
+        if not ok:
+            proofs_ok, detail = False, "coqchk rejected the compiled development: " + log[-600:]
     bins = vplib.cargo_build(ctx, "harness", ["c02"])
     rng = ctx.rng
     known_ids = {f.get("id") for f in vplib.known_findings("C02")}
@@ -54,8 +59,9 @@ def run(ctx):
         for _ in range(n):
             doc = G.normalize_doc(G.gen_doc(rng, **kw))
             reqs, url_rel = [], []
-            for _ in range(4):
-                reqs.append((G.gen_claims_for(rng, doc), G.gen_url_for(rng, doc)))
+            for j in range(4):
+                t = G.gen_targeted(rng, doc) if j == 0 else None     # one request along a complete grant chain
+                reqs.append(t or (G.gen_claims_for(rng, doc), G.gen_url_for(rng, doc)))
             for i in range(2):                      # letter case of the request changed
                 c, u = reqs[i]
                 reqs.append((c, G.recase_url(rng, u)))
@@ -70,7 +76,8 @@ def run(ctx):
                                "reqs": reqs, "url_rel": url_rel, "rel": ("letter case of the rule's paths and query parameters", base)})
 
     # ---------------- implementation ----------------
-    lines = [json.dumps({"doc": G.doc_to_json(g["doc"], rng.choice(["absent", "null"])), "reps": 3,
+    reps = 3 if ctx.quick else 5                    # independently built (re-hashed) copies of each rule set
+    lines = [json.dumps({"doc": G.doc_to_json(g["doc"], rng.choice(["absent", "null"])), "reps": reps,
                          "reqs": [G.claims_to_req(c, u) for c, u in g["reqs"]]}) for g in groups]
     out = [json.loads(l[3:]) for l in vplib.run_lines(bins["c02"], lines) if l.startswith("@@ ")]
     assert len(out) == len(lines), (len(out), len(lines))
@@ -126,7 +133,7 @@ def run(ctx):
                     "replay": "echo '%s' | .target/debug/c02" % replay_line(doc, [(c, u)])}
             d = r["d"]
             if any(x != d[0] for x in d) or not isinstance(d[0], bool):
-                failures.append({"case": case, "why": "the decision is not a function of (rules, caller, URL): %r on three identically built rule sets" % d,
+                failures.append({"case": case, "why": "the decision is not a function of (rules, caller, URL): %r on identically built rule sets" % d,
                                  "impl": d, "known_class": None})
                 ds.append(None)
                 ok_all = False
@@ -210,7 +217,7 @@ def run(ctx):
                                     for g in groups for c, u in g["reqs"]
                                     if G.parse_mode_py(g["doc"]["mode"]) != "disabled" and G.sections(g["doc"])}),
         "traces_validated_against_impl": total - len(disagreements),
-        "rule": "(rule document, caller, URL) triples: documents from four streams (structured with frequent duplicate and dangling names over a 5-name alphabet; the same without duplicate names; malformed: missing/null sections, odd mode and defaultAccess strings; non-ASCII rule strings), 4 requests aimed at the document's privileges and identities (matches and near misses, duplicate/valueless/empty query keys, exe-path spellings, non-UTF-8 process names) + 2 letter-case variants of requests; 45% of documents again with every listing shuffled, 45% again with the letter case of the rule's paths/query parameters changed; each document flattened 3 times (fresh hash seeds). distinct_nontrivial = distinct triples whose mode is not disabled and whose document has all four sections",
+        "rule": "(rule document, caller, URL) triples: documents from four streams (structured with frequent duplicate and dangling names over a 5-name alphabet; the same without duplicate names; malformed: missing/null sections, odd mode and defaultAccess strings; non-ASCII rule strings), 4 requests aimed at the document's privileges and identities (one built along a complete grant chain with at most one attribute slightly changed; matches and near misses, duplicate/valueless/empty query keys, exe-path spellings, non-UTF-8 process names) + 2 letter-case variants of requests; 45% of documents again with every listing shuffled, 45% again with the letter case of the rule's paths/query parameters changed; each document flattened 3 times (fresh hash seeds). distinct_nontrivial = distinct triples whose mode is not disabled and whose document has all four sections",
         "exhaustive": False,
         "samples": samples,
         "input_distribution": {
